@@ -42,7 +42,7 @@ ASSUMPTIONS = [
 ]
 MUST_REACH = {"polls": 3000, "replays_served": 50, "responses_lost": 100, "events_swallowed": 100, "emptied_responses": 20,
               "injected_delivered": 100, "regions_announced": 30, "teardowns": 20, "states": 100, "histories_judged": 200, "announcing_events_covered": 4, "responses_whose_handling_failed": 30,
-              "steps_on_other_conversations": 300}
+              "steps_on_other_conversations": 300, "events_injected_as_messages": 100}
 
 KINDS = ["1", "2", "A", "5"]
 ACTIONS = []
@@ -77,6 +77,8 @@ def serial_of(event):
             return "enable-%s" % body["SimulatorInfo"][0]["Port"]
         if "sim-ip-and-port" in body:
             return "eac-" + body["sim-ip-and-port"]
+        if event.get("message") == "ChatFromSimulator":
+            return str(body["ChatData"][0]["Message"])
         if event.get("message") == "TeleportFinish":
             return "tp-%s" % body["Info"][0]["SimPort"]
         if event.get("message") == "CrossedRegion":
@@ -358,7 +360,18 @@ class World:
         s = f"inj-{self.next_serial}"
         self.next_serial += 1
         try:
-            self.region.eq_manager.inject_event({"message": "HVInjected", "body": {"serial": s}})
+            if self.next_serial % 2:
+                # the other way in: a Message object as addons build them (enum members for the enumerated fields), converted
+                # by the queue's own message serializer
+                from hippolyzer.lib.base.message.message import Message, Block
+                from hippolyzer.lib.base.templates import ChatType, ChatSourceType
+                self.region.eq_manager.inject_message(Message(
+                    "ChatFromSimulator",
+                    Block("ChatData", FromName="hv", SourceID=self.session.agent_id, OwnerID=self.session.agent_id,
+                          SourceType=ChatSourceType.OBJECT, ChatType=ChatType.OWNER, Audible=1, Position=(1.0, 2.0, 3.0), Message=s)))
+                self.ctx.count("events_injected_as_messages")
+            else:
+                self.region.eq_manager.inject_event({"message": "HVInjected", "body": {"serial": s}})
         except Exception as e:
             self.viol("inject-raised", "injecting an event raised", exc=repr(e)[:200])
             return
